@@ -3,6 +3,8 @@ from pyvc.contract import contract, field_type
 
 Q = 'biogeme.results.'
 
+field_type('bioResults', 'data', 'RawResults | None')
+
 contract(Q + 'calc_p_value', 'C08',
          types={'t': 'float'},
          ensures={'formula': "result == 2.0 * (1.0 - app('scipy.stats.norm.cdf', abs(t)))"})
@@ -34,3 +36,109 @@ for value, se, other_t in cands:
         detail = f'value={{value}} std_err={{se}}: {tt}={{b.{tt}}} {pv}={{b.{pv}}} but 2(1-Phi(|t|))={{calc_p_value(b.{tt})}}'
         break
 """)
+
+contract(Q + 'bioResults._calculate_test', 'C08',
+         types={'matrix': 'mat', 'i': 'int', 'j': 'int'},
+         requires={'data': 'self.data is not None', 'i_rng': '0 <= i < len(self.data.betaValues)', 'j_rng': '0 <= j < len(self.data.betaValues)'},
+         ensures={
+             'formula': "result == ite(matrix[i, i] + matrix[j, j] - 2.0 * matrix[i, j] <= 0, FMAX(), "
+                        "(self.data.betaValues[i] - self.data.betaValues[j]) / "
+                        "app('numpy.sqrt', matrix[i, i] + matrix[j, j] - 2.0 * matrix[i, j]))",
+         })
+
+for _f in ('varCovar', 'robust_varCovar', 'bootstrap_varCovar', 'correlation', 'robust_correlation',
+           'bootstrap_correlation', 'eigenVectors'):
+    field_type('RawResults', _f, 'mat')
+for _f in ('eigenValues', 'singularValues'):
+    field_type('RawResults', _f, 'vec')
+field_type('RawResults', 'H', 'mat | None')
+field_type('RawResults', 'bhhh', 'mat')
+field_type('RawResults', 'bootstrap', 'mat | None')
+field_type('RawResults', 'initLogLike', 'float | None')
+field_type('RawResults', 'nullLogLike', 'float | None')
+field_type('RawResults', 'betas', 'list[biogeme.results.Beta]')
+field_type('RawResults', 'betaNames', 'list[str]')
+field_type('RawResults', 'secondOrderTable', 'dict[Any, list[float]] | None')
+
+
+def _se(M):   # standard error of parameter q from matrix field M
+    return f"ite(self.data.{M}[q, q] < 0, FMAX(), app('numpy.sqrt', self.data.{M}[q, q]))"
+
+
+def _tstat(M):
+    return (f"ite({_se(M)} == 0, FMAX(), app('numpy.nan_to_num', old(self.data.betas[q].value) / {_se(M)}))")
+
+
+def _fam_clause(M, pre):
+    return (f"forall(lambda q: self.data.betas[q].{pre}stdErr == {_se(M)} and "
+            f"self.data.betas[q].{pre}tTest == {_tstat(M)} and "
+            f"self.data.betas[q].{pre}pValue == 2.0 * (1.0 - app('scipy.stats.norm.cdf', abs(typed(self.data.betas[q].{pre}tTest, 'float')))), 0, LIM)")
+
+
+def _corr(M):
+    return (f"same(self.data.{'correlation' if M == 'varCovar' else M.replace('varCovar', 'correlation')}, "
+            f"ite(typed((app('numpy.diag', self.data.{M}) > 0).all(), 'bool'), "
+            f"app('scipy.linalg.inv', app('numpy.diag', app('numpy.sqrt', app('numpy.diag', self.data.{M})))).dot("
+            f"self.data.{M}.dot(app('scipy.linalg.inv', app('numpy.diag', app('numpy.sqrt', app('numpy.diag', self.data.{M})))))), "
+            f"app('numpy.full_like', self.data.{M}, FMAX())))")
+
+
+_STATS_REQ = {
+    'n': 'implies(self.data is not None, self.data.nparam >= 0 and len(self.data.betas) == self.data.nparam '
+         'and len(self.data.betaValues) == self.data.nparam and len(self.data.betaNames) == self.data.nparam)',
+    'distinct_betas': 'implies(self.data is not None, forall(lambda a: forall(lambda b: implies(a != b, '
+                      'self.data.betas[a] is not self.data.betas[b]), 0, self.data.nparam), 0, self.data.nparam))',
+    'N': 'implies(self.data is not None, self.data.sampleSize > 0)',
+}
+
+contract(Q + 'bioResults._calculate_stats', 'C08',
+         requires=_STATS_REQ,
+         modifies=['*.likelihoodRatioTestNull', '*.likelihoodRatioTest', '*.rhoSquare', '*.rhoSquareNull',
+                   '*.rhoBarSquare', '*.rhoBarSquareNull', '*.akaike', '*.bayesian', '*.eigenValues',
+                   '*.eigenVectors', '*.singularValues', '*.varCovar', '*.correlation', '*.robust_varCovar',
+                   '*.robust_correlation', '*.bootstrap_varCovar', '*.bootstrap_correlation',
+                   '*.secondOrderTable', '*.smallestEigenValue', '*.smallestEigenVector',
+                   '*.smallestSingularValue', '*.largestEigenValue', '*.largestEigenVector',
+                   '*.largestSingularValue', '*.conditionNumber',
+                   '*.stdErr', '*.tTest', '*.pValue', '*.robust_stdErr', '*.robust_tTest', '*.robust_pValue',
+                   '*.bootstrap_stdErr', '*.bootstrap_tTest', '*.bootstrap_pValue'],
+         ensures={
+             'lr_null': 'implies(self.data is not None, same(self.data.likelihoodRatioTestNull, '
+                        'ite(self.data.nullLogLike is None, None, -2.0 * (self.data.nullLogLike - self.data.logLike))))',
+             'lr_init': 'implies(self.data is not None, same(self.data.likelihoodRatioTest, '
+                        'ite(self.data.initLogLike is None, None, -2.0 * (self.data.initLogLike - self.data.logLike))))',
+             'rho2': "implies(self.data is not None and self.data.initLogLike is not None and self.data.initLogLike != 0, "
+                     "self.data.rhoSquare == app('numpy.nan_to_num', 1.0 - self.data.logLike / self.data.initLogLike))",
+             'rho2_null': "implies(self.data is not None and self.data.nullLogLike is not None and self.data.nullLogLike != 0, "
+                          "self.data.rhoSquareNull == app('numpy.nan_to_num', 1.0 - self.data.logLike / self.data.nullLogLike))",
+             'rhobar2': "implies(self.data is not None and self.data.initLogLike is not None and self.data.initLogLike != 0, "
+                        "self.data.rhoBarSquare == app('numpy.nan_to_num', 1.0 - (self.data.logLike - self.data.nparam) / self.data.initLogLike))",
+             'rhobar2_null': "implies(self.data is not None and self.data.nullLogLike is not None and self.data.nullLogLike != 0, "
+                             "self.data.rhoBarSquareNull == app('numpy.nan_to_num', 1.0 - (self.data.logLike - self.data.nparam) / self.data.nullLogLike))",
+             'aic': 'implies(self.data is not None, self.data.akaike == 2.0 * self.data.nparam - 2.0 * self.data.logLike)',
+             'bic': "implies(self.data is not None, self.data.bayesian == -2.0 * self.data.logLike + self.data.nparam * app('numpy.log', self.data.sampleSize))",
+             'varcovar': "implies(self.data is not None and self.data.H is not None, same(self.data.varCovar, "
+                         "-app('scipy.linalg.pinv', app('numpy.nan_to_num', self.data.H))))",
+             'robust': "implies(self.data is not None and self.data.H is not None, same(self.data.robust_varCovar, "
+                       "self.data.varCovar.dot(self.data.bhhh.dot(self.data.varCovar))))",
+             'bootstrap': "implies(self.data is not None and self.data.H is not None and self.data.bootstrap is not None, "
+                          "same(self.data.bootstrap_varCovar, app('numpy.cov', self.data.bootstrap, rowvar=False)))",
+             'family_classical': "implies(self.data is not None and self.data.H is not None, "
+                                 + _fam_clause('varCovar', '').replace('LIM', 'self.data.nparam') + ")",
+             'family_robust': "implies(self.data is not None and self.data.H is not None, "
+                              + _fam_clause('robust_varCovar', 'robust_').replace('LIM', 'self.data.nparam') + ")",
+             'family_bootstrap': "implies(self.data is not None and self.data.H is not None and self.data.bootstrap is not None, "
+                                 + _fam_clause('bootstrap_varCovar', 'bootstrap_').replace('LIM', 'self.data.nparam') + ")",
+             'corr_classical': "implies(self.data is not None and self.data.H is not None, " + _corr('varCovar') + ")",
+             'corr_robust': "implies(self.data is not None and self.data.H is not None, " + _corr('robust_varCovar') + ")",
+             'corr_bootstrap': "implies(self.data is not None and self.data.H is not None and self.data.bootstrap is not None, " + _corr('bootstrap_varCovar') + ")",
+         },
+         invariants={
+             1: {'clauses': {'done': _fam_clause('varCovar', '').replace('LIM', '_k'),
+                             'values': 'forall(lambda q: self.data.betas[q].value == old(self.data.betas[q].value), 0, self.data.nparam)'},
+                 'modifies': ['stdErr', 'tTest', 'pValue'], 'modifies_exact': True},
+             2: {'clauses': {'done': _fam_clause('robust_varCovar', 'robust_').replace('LIM', '_k')},
+                 'modifies': ['robust_stdErr', 'robust_tTest', 'robust_pValue'], 'modifies_exact': True},
+             3: {'clauses': {'done': _fam_clause('bootstrap_varCovar', 'bootstrap_').replace('LIM', '_k')},
+                 'modifies': ['bootstrap_stdErr', 'bootstrap_tTest', 'bootstrap_pValue'], 'modifies_exact': True},
+         })
